@@ -112,6 +112,11 @@ type c16Head struct {
 	// with MidAt reached: the observer stays parked inside that Eligible call for StallMs of virtual time (a slow
 	// encoder / result decoding), e.g. longer than the per-head sampling window, before it goes on
 	StallMs int64 `json:"stallMs"`
+	// the CheckUpkeep call of this head stays pending (slow RPC) while Observation() is called and, if there is a next
+	// head, while that head is handed to the head channel (and Observation() is called again); then it returns.
+	// MidAt / After of such a head are not used when a next head is queued behind it; a head queued that way does not
+	// use its own MidAt / SlowRun.
+	SlowRun bool `json:"slowRun"`
 }
 
 // c16Prior: an earlier plugin instance created by the SAME factory (libocr keeps one factory per job and
@@ -578,12 +583,15 @@ func c16Run(t *testing.T, in c16Input) (impl c16Impl) {
 			p.Seen = append([]c16Seen{}, node.cf.rec.take()...)
 			impl.Points = append(impl.Points, p)
 		}
-		for i, h := range in.Heads {
+		setHead := func(hh c16Head, park chan struct{}, parked *bool) {
 			node.src.mu.Lock()
-			node.src.n, node.src.err = h.Active, h.SrcErr
+			node.src.n, node.src.err = hh.Active, hh.SrcErr
 			node.src.mu.Unlock()
-			hh := h
 			node.run.set(func([]string) ([]v2.UpkeepResult, error) {
+				if park != nil {
+					*parked = true
+					<-park // the RPC of this head is still pending
+				}
 				if hh.RunErr {
 					return nil, errors.New("c16: check failure")
 				}
@@ -593,9 +601,45 @@ func c16Run(t *testing.T, in c16Input) (impl c16Impl) {
 				}
 				return out, nil
 			})
-			node.enc.arm(h.MidAt)
-			node.heads.ch <- v2.BlockKey(h.Block)
-			synctest.Wait() // head processed completely, or the observer is parked inside the gated Eligible call
+		}
+		queued := false // head i was handed to the head channel while the RPC of head i-1 was pending
+		for i, h := range in.Heads {
+			wasQueued := queued
+			queued = false
+			var park chan struct{}
+			parked := false
+			slow := h.SlowRun && !wasQueued
+			if !wasQueued {
+				if slow {
+					park = make(chan struct{})
+				}
+				setHead(h, park, &parked)
+				if slow {
+					node.enc.arm(0)
+				} else {
+					node.enc.arm(h.MidAt)
+				}
+				node.heads.ch <- v2.BlockKey(h.Block)
+				synctest.Wait() // head processed completely, or the observer is parked (runner / gated Eligible call)
+			}
+			if slow && parked {
+				observe(i, "parked")
+				if i+1 < len(in.Heads) {
+					next := in.Heads[i+1]
+					setHead(next, nil, nil)
+					go func() { node.heads.ch <- v2.BlockKey(next.Block) }() // the head ticker delivers the next head
+					synctest.Wait()
+					observe(i, "queued")
+					queued = true
+				}
+				close(park)
+				synctest.Wait() // the pending head finishes, then the queued one is sampled
+				if queued {
+					continue
+				}
+			} else if slow {
+				close(park) // never reached: the head was abandoned before CheckUpkeep
+			}
 			node.enc.mu.Lock()
 			reached, rel := node.enc.reached, node.enc.release
 			node.enc.mu.Unlock()
@@ -1309,6 +1353,10 @@ func c16GenObsShift(r *Rng, em *Emitter) c16Input {
 		if r.Chance(5) {
 			h.RunErr = true
 		}
+		if r.Chance(25) { // slow RPC: the next head arrives while this one is still being checked
+			h.SlowRun = true
+			em.Hit("slow-run")
+		}
 		in.Heads = append(in.Heads, h)
 		if !h.RunErr {
 			prev = cur
@@ -1376,6 +1424,10 @@ func c16GenObs(r *Rng, em *Emitter) c16Input {
 		}
 		h.After = r.Chance(40)
 		h.AcceptAfter = h.After && r.Chance(50)
+		if r.Chance(15) {
+			h.SlowRun = true
+			em.Hit("slow-run")
+		}
 		in.Heads = append(in.Heads, h)
 	}
 	in.Coord = c16GenCoord(r, ids, blocks, em)
@@ -1490,6 +1542,18 @@ func c16Edge() []c16Input {
 		h2 := hd("101", el("101|3"), c16HeadRes{Key: "101|1"}, c16HeadRes{Key: "101|2"})
 		h2.MidAt, h2.After = k, true
 		out = append(out, c16Input{Mode: "obs", Cfg: def, Coord: fake, Heads: []c16Head{h1, h2}})
+	}
+	// the RPC of head 100 (1,2 eligible) is still pending when head 101 (only 3 eligible) arrives
+	{
+		h1 := hd("100", el("100|1"), el("100|2"), c16HeadRes{Key: "100|3"})
+		h1.SlowRun = true
+		h2 := hd("101", c16HeadRes{Key: "101|1"}, c16HeadRes{Key: "101|2"}, el("101|3"))
+		h2.After = true
+		out = append(out, c16Input{Mode: "obs", Cfg: def, Coord: fake, Heads: []c16Head{h1, h2}})
+		h0 := hd("99", el("99|9"))
+		h3 := hd("102", el("102|1"))
+		h3.SlowRun, h3.After = true, true
+		out = append(out, c16Input{Mode: "obs", Cfg: def, Coord: fake, Heads: []c16Head{h0, h1, h2, h3}})
 	}
 	for _, w := range []int64{0, 20} {
 		cfg := def
